@@ -33,6 +33,8 @@ def main():
     suite = True
     tier = "quick"
     dstname = None
+    seeds = [1]
+    also = []
     i = 1
     while i < len(args):
         if args[i] == "--src":
@@ -45,6 +47,10 @@ def main():
             tier = args[i + 1]; i += 2
         elif args[i] == "--dst":
             dstname = args[i + 1]; i += 2
+        elif args[i] == "--seeds":
+            seeds = [int(x) for x in args[i + 1].split(",")]; i += 2
+        elif args[i] == "--also":
+            also = args[i + 1].split(","); i += 2
         else:
             i += 1
     patch = os.path.join(src, "patch.diff")
@@ -103,17 +109,32 @@ def main():
                 result["suite_missing_first_run"] = missing
                 result["suite_missing_after_rerun"] = still
                 result["suite_ok"] = not still
-            t0 = time.time()
-            rcc, outc = sh([os.path.join(V, "check"), pid, "--tier", tier], cwd=V, timeout=3000,
-                           env=dict(os.environ, VERIF_REPO=wt, VERIF_NO_EVIDENCE="1"))
+            per_seed = {}
+            first = None
+            for sd in seeds:
+                t0 = time.time()
+                rcc, outc = sh([os.path.join(V, "check"), pid, "--tier", tier], cwd=V, timeout=3000,
+                               env=dict(os.environ, VERIF_REPO=wt, VERIF_NO_EVIDENCE="1", VERIF_SEED=str(sd)))
+                viol = [l for l in outc.splitlines() if l.startswith("VIOLATION") or l.strip().startswith("clause=")]
+                per_seed[str(sd)] = {"rc": rcc, "wall_s": round(time.time() - t0, 1)}
+                if first is None or (rcc == 1 and first[0] != 1):
+                    first = (rcc, viol, outc, round(time.time() - t0, 1))
+            rcc, viol, outc, wall = first
             result["check_tier"] = tier
             result["check_rc"] = rcc
-            result["check_wall_s"] = round(time.time() - t0, 1)
-            viol = [l for l in outc.splitlines() if l.startswith("VIOLATION") or l.strip().startswith("clause=")]
+            result["check_wall_s"] = wall
+            result["check_per_seed"] = per_seed
             result["check_violation_lines"] = [v[:300] for v in viol[:6]]
             result["detected"] = rcc == 1
+            result["detected_at_every_seed"] = all(v["rc"] == 1 for v in per_seed.values())
             if rcc not in (0, 1):
                 result["check_output_tail"] = outc[-1500:]
+            for other in also:
+                r2, o2 = sh([os.path.join(V, "check"), other, "--tier", tier], cwd=V, timeout=3000,
+                            env=dict(os.environ, VERIF_REPO=wt, VERIF_NO_EVIDENCE="1"))
+                result.setdefault("also_checked", {})[other] = {"rc": r2, "lines": [l[:300] for l in o2.splitlines() if "clause=" in l][:2]}
+                if r2 == 1:
+                    result["detected_by_related_check"] = other
     finally:
         sh(["git", "-C", wt, "checkout", "--", "."])
         # evidence files must come from the unchanged tree: restore by re-running nothing here, caller re-runs checks
